@@ -106,8 +106,10 @@ RxFold(c, o, ev) ==
                     !.nDone = IF ev.e = "cb_e" THEN @ + 1 ELSE @,
                     !.nFin = LET r == o.ms[ev.m]
                                  needAck == c.ackable /\ IsValid(c, ev.m) /\ ~MsgC(c, ev.m).ackfail /\ ~FatalHookRaises(c)
-                             IN IF ev.e = "cb_e" /\ (~needAck \/ r.ak > 0 \/ ev.s # "ok") THEN @ + 1
-                                ELSE IF ev.e = "ack" /\ r.cbE > 0 /\ r.ak = 0 /\ needAck /\ r.cbOk THEN @ + 1
+                                 slowAck == c.ackasync \/ c.ackfut          \* the acknowledgement ends with its own event (ack_e)
+                                 ackDone == IF slowAck THEN r.ake > 0 ELSE r.ak > 0
+                             IN IF ev.e = "cb_e" /\ (~needAck \/ ackDone \/ ev.s # "ok") THEN @ + 1
+                                ELSE IF ev.e = (IF slowAck THEN "ack_e" ELSE "ack") /\ r.cbE > 0 /\ ~ackDone /\ needAck /\ r.cbOk THEN @ + 1
                                 ELSE @,
                     !.nBody = IF ev.e = "start" THEN @ + 1 ELSE IF ev.e = "end" THEN @ - 1 ELSE @]
     [] OTHER -> o1
